@@ -529,7 +529,7 @@ fn main() {
     };
     let mut ev = ev_a;
     ev.merge(ev_b);
-    if args.only.is_none() && args.shard == 0 {
+    if args.blocks() {
         aliased_axes_lookups(&mut ev);
         overflowing_span_lookups(&mut ev);
     }
